@@ -238,3 +238,77 @@ namespace sse
         return a;
     }
 }
+
+// ---------------------------------------------------------------------- kernels
+namespace sse
+{
+    // A realistic flow kernel: each node reads the current output value of its receivers
+    // and writes its own slot (1 + max over receivers = number of links to the outlet).
+    // Correct only when every receiver is processed before the node, i.e. it observes
+    // the traversal order the graph hands to apply_kernel.
+    struct KernelData
+    {
+        std::vector<double> out;
+    };
+    struct KernelNode
+    {
+        std::size_t idx = 0;
+        double value = 0;
+        double best = 0;
+    };
+    template <class FG>
+    fs::detail::flow_kernel make_depth_kernel(FG& fg,
+                                              fs::flow_graph_traversal_dir dir,
+                                              int n_threads = 1,
+                                              int min_block = 1,
+                                              int min_level = 1)
+    {
+        fs::detail::flow_kernel k;
+        const auto* impl = &fg.impl();
+        k.func = [](void* nd) -> int
+        {
+            auto* n = static_cast<KernelNode*>(nd);
+            n->value = 1.0 + n->best;
+            return 0;
+        };
+        k.node_data_getter = [impl](std::size_t i, void* data, void* nd) -> int
+        {
+            auto* d = static_cast<KernelData*>(data);
+            auto* n = static_cast<KernelNode*>(nd);
+            n->idx = i;
+            n->best = -1.0;
+            for (std::size_t r = 0; r < impl->receivers_count()(i); ++r)
+            {
+                std::size_t rec = impl->receivers()(i, r);
+                if (rec != i)
+                    n->best = std::max(n->best, d->out[rec]);
+            }
+            return 0;
+        };
+        k.node_data_setter = [](std::size_t i, void* nd, void* data) -> int
+        {
+            static_cast<KernelData*>(data)->out[i] = static_cast<KernelNode*>(nd)->value;
+            return 0;
+        };
+        k.node_data_create = []() -> void* { return new KernelNode(); };
+        k.node_data_init = nullptr;
+        k.node_data_free = [](void* nd) { delete static_cast<KernelNode*>(nd); };
+        k.n_threads = n_threads;
+        k.min_block_size = min_block;
+        k.min_level_size = min_level;
+        k.apply_dir = dir;
+        return k;
+    }
+
+    template <class FG>
+    std::vector<double> run_depth_kernel(FG& fg, fs::flow_graph_traversal_dir dir, int n_threads = 1, int min_block = 1, int min_level = 1)
+    {
+        auto k = make_depth_kernel(fg, dir, n_threads, min_block, min_level);
+        KernelData kd;
+        kd.out.assign(fg.size(), -5.0);
+        fs::detail::flow_kernel_data fkd;
+        fkd.data = &kd;
+        fg.apply_kernel(k, fkd);
+        return kd.out;
+    }
+}
